@@ -505,7 +505,14 @@ pub fn inputs_c10(r: &mut Rng, n: usize, _tier: &str, out: &mut dyn Write) {
                 let kind = *r.pick(&["display", "gregstr", "isofmt", "json"]);
                 writeln!(out, "ert {} {}", kind, estr(epoch_c10(r, ts), ts)).unwrap()
             }
-            6 | 7 => writeln!(out, "ert rfc3339 {}", estr(epoch_c10(r, "UTC"), "UTC")).unwrap(),
+            6 => writeln!(out, "ert rfc3339 {}", estr(epoch_c10(r, "UTC"), "UTC")).unwrap(),
+            7 if r.chance(1, 2) => writeln!(out, "ert rfc3339 {}", estr(epoch_c10(r, "UTC"), "UTC")).unwrap(),
+            7 => {
+                // rendered with an offset, every whole minute of -23:59..+23:59 (half of them under one hour, either sign:
+                // seeded change C10-8 lost the sign of -00:mm), then parsed back
+                let m: i64 = match r.below(4) { 0 => r.range_i64(-59, 59), 1 => *r.pick(&[-1i64, 1, -59, 59, -60, 60, -1439, 1439, 0]), _ => r.range_i64(-1439, 1439) };
+                writeln!(out, "tz_rt {} {} {}", r.pick(&["std", "flex"]), estr(epoch_c10(r, "UTC"), "UTC"), dstr(m as i128 * 60_000_000_000)).unwrap()
+            }
             8 => writeln!(out, "edisplay {}", estr(epoch_c10(r, ts), ts)).unwrap(),
             9 => writeln!(out, "rfc3339 {}", estr(epoch_c10(r, "UTC"), "UTC")).unwrap(),
             10 => writeln!(out, "gregstr {} {}", estr(epoch_c10(r, ts), ts), ts).unwrap(),
@@ -882,6 +889,17 @@ pub fn exec(op: &str, a: &[&str]) -> Option<String> {
         "gregstr" => okhex(&s2e(a[0]).to_gregorian_str(s2ts(a[1]))),
         "isofmt" => okhex(&format!("{}", Formatter::new(s2e(a[0]), ISO8601))),
         "ejson" => okhex(&serde_json::to_string(&s2e(a[0])).unwrap()),
+        // the RFC 3339 rendering of a UTC epoch WITH an offset (Formatter::with_timezone, RFC3339 / RFC3339_FLEX), parsed back
+        "tz_rt" => {
+            let e = s2e(a[1]);
+            let off = s2d(a[2]);
+            let f = if a[0] == "flex" { hifitime::efmt::consts::RFC3339_FLEX } else { hifitime::efmt::consts::RFC3339 };
+            let s = format!("{}", Formatter::with_timezone(e, off, f));
+            Some(match Epoch::from_str(&s) {
+                Ok(x) => format!("ok {} {}", str2hex(&s), e2s(x)),
+                Err(_) => format!("ok {} err", str2hex(&s)),
+            })
+        }
         "ert" => {
             let e = s2e(a[1]);
             let s = match a[0] {
